@@ -253,6 +253,11 @@ def check_C02(tier, seed, res, replay=None):
     res.count_cases(cases, nontrivial_both_nonempty)
     res.add_samples([c for c in cases if nontrivial_both_nonempty(c)][:3])
     run_events(res, rd, "c02", cases)
+    import cli_arm
+    pick = [c for c in cases if c["op"] in ("union", "isect") and nontrivial_both_nonempty(c)]
+    rng.shuffle(pick)
+    cli_cases = [{"id": c["id"], "cmd": c["op"], "A": c["A"], "B": c["B"]} for c in pick[:6000 if tier == "thorough" else 1200]]
+    cli_arm.judge(res, rd, "c02", cli_arm.ta_op_events(cli_cases, rd), "TraceTA.tla")
     # agreement arm: consequences of the contracts on many more random pairs, judged by TLC only where suspicious
     nb, per = (800, 20000) if tier == "thorough" else (64, 10000)
     batches = [{"id": ["c02agree", i], "op": "c02agree", "seed": seed * 7919 + i, "count": per, "shape": ["dense", "mid"][i % 2], "tmo": 900000}
@@ -336,6 +341,11 @@ def check_C03(tier, seed, res, replay=None):
     res.add_samples([c for c in cases if nontrivial_trim(c)][:3])
     run_events(res, rd, "c03", cases)
     laws_arm(res, rd, tier, seed, "trim")
+    import cli_arm
+    pick = [c for c in cases if nontrivial_trim(c) and c["A"]["rules"]]
+    rng.shuffle(pick)
+    cli_cases = [{"id": c["id"], "cmd": rng.choice(["load-p", "load-s"]), "A": c["A"]} for c in pick[:8000 if tier == "thorough" else 1500]]
+    cli_arm.judge(res, rd, "c03", cli_arm.ta_op_events(cli_cases, rd), "TraceTA.tla")
 
 
 # ---------------------------------------------------------------------------------------- C04
@@ -394,6 +404,10 @@ def check_C05(tier, seed, res, replay=None):
     res.add_samples([c for c in cases if nt(c)][:3])
     run_events(res, rd, "c05", cases)
     laws_arm(res, rd, tier, seed, "reduce")
+    import cli_arm
+    pick = [c for c in cases if nt(c)]
+    rng.shuffle(pick)
+    cli_arm.judge(res, rd, "c05", cli_arm.ta_op_events([{"id": c["id"], "cmd": "red", "A": c["A"]} for c in pick[:6000 if tier == "thorough" else 1200]], rd), "TraceTA.tla")
 
 
 # ---------------------------------------------------------------------------------------- C06
@@ -421,6 +435,12 @@ def check_C06(tier, seed, res, replay=None):
     res.add_samples([c for c in cases if nt(c)][:3])
     run_events(res, rd, "c06", cases, timeout_ms=10000)
     laws_arm(res, rd, tier, seed, "compl", per_quick=3000)
+    import cli_arm
+    pick = [c for c in cases if nt(c) and len(vlib.ta_states(c["A"])) <= 4]
+    rng.shuffle(pick)
+    cli_cases = [{"id": c["id"], "cmd": "cmpl", "A": c["A"], "syms": [s for s in c["syms"]] + [s for s in gen.syms_of(c["A"]) if s not in c["syms"]]}
+                 for c in pick[:4000 if tier == "thorough" else 800]]
+    cli_arm.judge(res, rd, "c06", cli_arm.ta_op_events(cli_cases, rd), "TraceTA.tla")
 
 
 # ---------------------------------------------------------------------------------------- C14
@@ -494,3 +514,7 @@ def check_C15(tier, seed, res, replay=None):
     res.add_samples([c for c in cases if nt(c)][:3])
     run_events(res, rd, "c15", cases)
     laws_arm(res, rd, tier, seed, "witness")
+    import cli_arm
+    pick = [c for c in cases if c["A"]["rules"]]
+    rng.shuffle(pick)
+    cli_arm.judge(res, rd, "c15", cli_arm.ta_op_events([{"id": c["id"], "cmd": "witness", "A": c["A"]} for c in pick[:6000 if tier == "thorough" else 1200]], rd), "TraceTA.tla")
